@@ -93,8 +93,39 @@ class Exec(CallsMixin):
             return [Outcome("next", st)]
         if isinstance(node.value, (ast.Yield, ast.YieldFrom)):
             return self.do_yield(node.value, st)
+        rw = self.rewrite_dict_of_lists_append(node)
+        if rw is not None:
+            return self.exec_stmt(rw, st) if hasattr(self, "exec_stmt") else self.exec_block([rw], st)
         self.eval(node.value, st)
         return [Outcome("next", st)]
+
+    def rewrite_dict_of_lists_append(self, node):
+        """`d[k].append(a)` / `d.setdefault(k, []).append(a)` on a dict declared in opts['dict_of_lists'] (a dict whose list values are created
+        by the function itself and reachable only through the dict): executed as the functional update  d[k] = (d[k] if k in d else []) + [a].
+        Value semantics equal reference semantics here because no alias to the inner lists exists (declared assumption)."""
+        names = self.opts.get("dict_of_lists") or {}
+        c = node.value
+        if not (names and isinstance(c, ast.Call) and isinstance(c.func, ast.Attribute) and c.func.attr == "append" and len(c.args) == 1 and not c.keywords):
+            return None
+        tgt = c.func.value
+        d = k = None
+        if isinstance(tgt, ast.Subscript) and isinstance(tgt.value, ast.Name):
+            d, k = tgt.value.id, tgt.slice
+            default_ok = names.get(d) == "defaultdict"
+        elif (isinstance(tgt, ast.Call) and isinstance(tgt.func, ast.Attribute) and tgt.func.attr == "setdefault" and isinstance(tgt.func.value, ast.Name)
+              and len(tgt.args) == 2 and isinstance(tgt.args[1], ast.List) and not tgt.args[1].elts):
+            d, k = tgt.func.value.id, tgt.args[0]
+            default_ok = True
+        if d is None or d not in names:
+            return None
+        ks, as_ = ast.unparse(k), ast.unparse(c.args[0])
+        src = f"{d}[{ks}] = ({d}[{ks}] if {ks} in {d} else []) + [{as_}]" if default_ok else f"{d}[{ks}] = {d}[{ks}] + [{as_}]"
+        new = ast.parse(src).body[0]
+        ast.copy_location(new, node)
+        for n_ in ast.walk(new):
+            ast.copy_location(n_, node)
+        self.assumptions.add(f"lists held in `{d}` are reachable only through it (dict-of-lists update executed by value)")
+        return new
 
     def do_yield(self, y, st):
         v = self.as_val(self.eval(y.value, st), st, y) if y.value is not None else VNone
